@@ -503,3 +503,46 @@ mod tests {
         let _port: u16 = sharder.draw_source_port_for_shard(30000);
     }
 }
+
+/// Verification hooks (only with `--cfg scylla_verif`): pass-through to the
+/// crate-private `*_from_range` port functions and to `ShardInfo` parsing.
+#[cfg(scylla_verif)]
+#[allow(missing_docs)]
+pub mod verif_hooks {
+    use super::{Shard, ShardAwarePortRange, ShardInfo, Sharder};
+    use std::collections::HashMap;
+
+    pub fn draw_source_port_for_shard_from_range(
+        sharder: &Sharder,
+        shard: Shard,
+        port_range: &ShardAwarePortRange,
+    ) -> Option<u16> {
+        sharder.draw_source_port_for_shard_from_range(shard, port_range)
+    }
+
+    pub fn iter_source_ports_for_shard_from_range(
+        sharder: &Sharder,
+        shard: Shard,
+        port_range: &ShardAwarePortRange,
+    ) -> Vec<u16> {
+        sharder
+            .iter_source_ports_for_shard_from_range(shard, port_range)
+            .collect()
+    }
+
+    /// Ok((shard, nr_shards, msb_ignore)) or Err(variant name).
+    pub fn parse_shard_info(
+        options: &HashMap<String, Vec<String>>,
+    ) -> Result<(u16, u16, u8), &'static str> {
+        use super::ShardingError::*;
+        match ShardInfo::try_from(options) {
+            Ok(i) => Ok((i.shard, i.nr_shards.get(), i.msb_ignore)),
+            Err(NoShardInfo) => Err("NoShardInfo"),
+            Err(MissingSomeShardInfoParameters) => Err("MissingSomeShardInfoParameters"),
+            Err(MissingShardInfoParameterValues) => Err("MissingShardInfoParameterValues"),
+            Err(ZeroShards) => Err("ZeroShards"),
+            Err(ShardIdOutOfRange { .. }) => Err("ShardIdOutOfRange"),
+            Err(ParseIntError(_)) => Err("ParseIntError"),
+        }
+    }
+}
